@@ -31,7 +31,7 @@ func init() {
 		Run:            run,
 		MinEvaluations: map[string]int{"quick": 20000, "thorough": 200000},
 		MinNontrivial:  map[string]int{"quick": 5000, "thorough": 50000},
-		RequiredObs:    []string{"aut>1", "classes!=nil", "reuse_history_steps", "reuse:classes_buffer_refilled_in_place", "edgeless_shortcut", "generators_checked", "earlier_full_result_rechecked_after_next_call"},
+		RequiredObs:    []string{"aut>1", "classes!=nil", "reuse_history_steps", "reuse:classes_buffer_refilled_in_place", "edgeless_shortcut", "generators_checked", "earlier_full_result_rechecked_after_next_call", "results_appended_to_by_the_caller"},
 	})
 }
 
@@ -223,6 +223,14 @@ func full(c *engine.Ctx, key string, g *rg.G, sparse bool, classes [][]int) (res
 			c.Violation("aut|earlier-result-changed-by-a-later-call|"+heldFull.key, map[string]interface{}{"first_call": heldFull.key, "then": key}, fmt.Sprintf("perm %v orbits %v gens %v", now.perm, now.orb, now.gens), fmt.Sprintf("as returned: perm %v orbits %v gens %v", heldFull.snap.perm, heldFull.snap.orb, heldFull.snap.gens))
 			heldFull.p = nil
 			return r, pi, "an earlier result changed"
+		}
+	}
+	// the three results are the caller's: appending to one of them (permutation, orbit set, any generator) must not
+	// change another one (they were copied above, so the judgement of their values is not affected)
+	if pi == nil && bad == "" && g.N > 0 {
+		c.Obs("results_appended_to_by_the_caller", 1)
+		if msg := engine.AppendTouchesOthers(append([][]int{rawP, []int(rawO)}, rawG...)); msg != "" {
+			bad = "the results share memory (list 0 = permutation, 1 = orbits, 2.. = generators): " + msg
 		}
 	}
 	if pi == nil && bad == "" && g.N > 0 {
